@@ -2,6 +2,8 @@ package main
 
 import (
 	"fmt"
+	"runtime"
+	"verif/engine"
 
 	"github.com/brewlin/net-protocol/pkg/waiter"
 	tcpip "github.com/brewlin/net-protocol/protocol"
@@ -93,4 +95,63 @@ func probeRawTrace(job string) {
 		}
 	}
 	fmt.Println("steps", r.Steps, "violation", r.Violation)
+}
+
+func probeLeak(job string) {
+	cfg := ParsePairCfg(job)
+	for i := 0; i < 5; i++ {
+		RunPair(cfg, nil)
+		fmt.Println("goroutines after run", i, runtime.NumGoroutine())
+	}
+	buf := make([]byte, 1<<20)
+	n := runtime.Stack(buf, true)
+	fmt.Println(string(buf[:n]))
+}
+
+func probeLeak2(job string) {
+	cfg := ParsePairCfg(job)
+	max := 0
+	st := engine.ExploreEnv(job, func(prefix []int) *engine.EnvRun {
+		r := RunPair(cfg, prefix)
+		if n := runtime.NumGoroutine(); n > max {
+			max = n
+			fmt.Println("goroutines", n, "after prefix", prefix)
+		}
+		return r
+	}, engine.EnvCfg{Budget: cfg.Budget})
+	fmt.Println("execs", st.Execs, "max goroutines", max, "violations", len(st.Violations))
+	buf := make([]byte, 1<<20)
+	n := runtime.Stack(buf, true)
+	s := string(buf[:n])
+	if len(s) > 6000 {
+		s = s[:6000]
+	}
+	fmt.Println(s)
+}
+
+func probeDet(job string) {
+	cfg := ParsePairCfg(job)
+	n, bad := 0, 0
+	engine.ExploreEnv(job, func(prefix []int) *engine.EnvRun {
+		r1 := RunPair(cfg, prefix)
+		r2 := RunPair(cfg, prefix)
+		n++
+		if fmt.Sprint(r1.Trace) != fmt.Sprint(r2.Trace) || r1.Outcome != r2.Outcome {
+			bad++
+			if bad < 3 {
+				fmt.Println("DIVERGED prefix", prefix)
+				for i := range r1.Trace {
+					if i >= len(r2.Trace) || r1.Trace[i] != r2.Trace[i] {
+						fmt.Println(" first diff at", i, r1.Trace[i])
+						if i < len(r2.Trace) {
+							fmt.Println("                 ", r2.Trace[i])
+						}
+						break
+					}
+				}
+			}
+		}
+		return r1
+	}, engine.EnvCfg{Budget: cfg.Budget})
+	fmt.Println("pairs", n, "diverged", bad, "goroutines", runtime.NumGoroutine())
 }
